@@ -481,10 +481,13 @@ _SETS = {"Complexes": lambda x: x != _INF, "Reals": _real,
 
 def _holds(typ, a1, a2):
     if typ in ("LessThan", "StrictLessThan"):
-        if not (_real(a1) and _real(a2)):
+        if _IMAG in (a1, a2):
             return False
-        return _num(a1) <= _num(a2) if typ == "LessThan" \
-            else _num(a1) < _num(a2)
+        # +oo is above every real number and equal to itself
+        if _INF in (a1, a2):
+            return False        # symbols range over numbers, not oo
+        v1, v2 = _num(a1), _num(a2)
+        return v1 <= v2 if typ == "LessThan" else v1 < v2
     same = (a1 == a2) if (isinstance(a1, tuple) or isinstance(a2, tuple)) \
         else a1 == a2
     return same if typ == "Equality" else not same
@@ -571,7 +574,9 @@ def assumption_ingest(prog, R):
             for n in _NS:
                 if n in (_IMAG, _INF) and typ in ("LessThan",
                                                   "StrictLessThan"):
-                    continue    # order statements: finite real numbers
+                    continue    # order statements: finite real bounds only
+                                # (symbols range over numbers; with x = oo
+                                # admitted every bound would be "unsound")
                 forms.append(StmtDomain(typ, sym, n))
     for setname in _SETS:
         forms.append(StmtDomain("Contains", None, None, setname))
@@ -885,8 +890,12 @@ def world_soundness(prog, R, V):
                             return None
                         sg.setdefault(who, {})[pred] = v
                     out = None
+                    # the constant term is a Number: zero, positive,
+                    # negative or not real at all (is_positive() and
+                    # is_negative() are both false for zero *and* for a
+                    # Complex number)
                     for cw in (("zero", "int"), ("pos", "int"),
-                               ("neg", "int")):
+                               ("neg", "int"), ("nonreal", "alg")):
                         d = sg.get("coef", {})
                         if any(d.get(p_, cw[0] == p_) != (cw[0] == p_)
                                for p_ in ("pos", "neg")):
@@ -901,11 +910,8 @@ def world_soundness(prog, R, V):
                                                 for t in term]) \
                                 if term else set()
                             if out is None:
-                                out = ([cw, c, ws[0]], res)
-                            bad = [w for w in res]
-                            # keep the combination with the most worlds
-                            if len(res) > len(out[1]):
-                                out = ([cw, c, ws[0]], res)
+                                out = []
+                            out.append(([cw, c, ws[0]], res))
                     return out
                 what = "coef + c*key"
             else:
@@ -928,6 +934,8 @@ def world_soundness(prog, R, V):
                     # the feature of the operands that makes the answer
                     # wrong (one finding per cause, not per world tuple)
                     if cls == "Add":
+                        if len(ws) == 3 and ws[0][0] == "nonreal":
+                            return "non-real constant term"
                         return "+".join(w[0] for w in ws)
                     c, b = ws[0][0], ws[1][0]
                     e = "one" if len(ws) < 3 or len(ws[2]) == 3 else ws[2][0]
